@@ -74,6 +74,23 @@ func scenarioC06Node(c *Ctx) {
 			e.Close()
 		}
 	}
+	// a proposal that names no message at all (a task without payload over an empty range) can never
+	// be answered - every participant's empty list of partial signatures is refused and nobody has a
+	// failure to report: it must be refused, or the round never returns to idle
+	{
+		w := NewWorld(3, 2, 8)
+		me := w.Users[0]
+		round := "round-c06-empty-batch"
+		ready := dkgPart(w.Honest(round, me))
+		empty := w.RawMsg(round, "event_signing_start", []byte(`{"BatchID":"batch-empty","ParticipantId":1,"CreatedAt":"2023-11-14T22:18:20Z","SigningTasks":[{"MessageID":"r","File":"","Payload":null,"RangeStart":5,"RangeEnd":5}]}`), w.Users[1], "", w.Users[1], NOWMARK, "proposal-without-messages")
+		items := append(append([]Item{}, ready...), empty)
+		runCases(c, []HistCase{{Kind: "empty-batch", User: me, Items: items, Check: func(o RunObs) {
+			if last := o.Classes[len(o.Classes)-1]; last != "err" || o.Before != o.After {
+				fail("proposal-without-messages-accepted", "a proposal whose tasks name no message at all is accepted: the batch can never be answered and the round never returns to idle (answered "+last+")",
+					map[string]interface{}{"after": roundProj(o.After, round)})
+			}
+		}}})
+	}
 	// "never counting one participant twice": a contribution counts for the participant that DELIVERED
 	// it - every other participant posts, validly signed by itself, the proposal / the partial
 	// signature that names the awaited one; the node must refuse it
